@@ -10,14 +10,20 @@ package main
 
 import (
 	"context"
+	"errors"
 	"fmt"
+	"os"
+	"path/filepath"
 	"reflect"
 	"runtime"
 	"sort"
 	"strings"
 	"time"
 
+	gittuf "github.com/gittuf/gittuf/experimental/gittuf"
 	"github.com/gittuf/gittuf/internal/luasandbox"
+	"github.com/gittuf/gittuf/internal/tuf"
+	"github.com/gittuf/gittuf/pkg/rsl"
 	sandboxopts "github.com/gittuf/gittuf/internal/luasandbox/options/luasandbox"
 	lua "github.com/yuin/gopher-lua"
 )
@@ -361,6 +367,110 @@ func runC20(c *runCtx) error {
 		code, err, el, stopped := lrs[i].code, lrs[i].err, lrs[i].el, lrs[i].stopped
 		c.add(fmt.Sprintf("(CTimeout %d 1000%%N %d%%N %s)", lp.family, el.Milliseconds(), coqBool(stopped)), sideCase{Class: "timeout/" + lp.name, Nontrivial: true, Key: keyOf(lp.code),
 			Human: map[string]interface{}{"script": lp.code, "timeout_s": 1, "elapsed_ms": el.Milliseconds(), "returned": stopped, "exit": code, "err": fmt.Sprint(err)}})
+	}
+	// ---- hook selection: a principal is only ever run the hooks the applied policy assigns to it ----
+	for hi := 0; hi < 12; hi++ {
+		r := c.rng
+		nh := 1 + r.Intn(4)
+		scratch := newMemStore()
+		hooks := []wHook{}
+		hterms, hh := []string{}, []string{}
+		scripts := map[string]string{}
+		for k := 0; k < nh; k++ {
+			exit := 10 + k
+			script := fmt.Sprintf("return %d", exit)
+			if r.Intn(5) == 0 {
+				script, exit = "return \"done\"", 1
+			}
+			script += fmt.Sprintf(" -- hook %d of case %d", k, hi)
+			bid, err := scratch.WriteBlob([]byte(script))
+			if err != nil {
+				return err
+			}
+			m := r.Intn(4)
+			pids := []int{}
+			for _, x := range r.Perm(4)[:m] {
+				pids = append(pids, 101+x)
+			}
+			if r.Intn(6) == 0 {
+				pids = append(pids, 199) // a principal nobody defines
+			}
+			name := fmt.Sprintf("hook%d", k)
+			hooks = append(hooks, wHook{Name: name, Pids: pids, BlobID: bid.String(), Timeout: 5})
+			scripts[bid.String()] = script
+			ps := []string{}
+			for _, x := range pids {
+				ps = append(ps, fmt.Sprint(x))
+			}
+			hterms = append(hterms, fmt.Sprintf("(%d, %s, (%d)%%Z)", k, coqList(ps), exit))
+			hh = append(hh, fmt.Sprintf("%s principals=%v script=%q", name, pids, script))
+		}
+		t := &wFile{Version: 1, Signers: []int{2}}
+		t.Name = "targets"
+		t.Defs = map[int][]int{101: {4}, 102: {5}, 103: {6}, 104: {7}}
+		t.Rules = []hRule{{Name: "protect-main", Patterns: []string{"git:" + refMain}, Pids: []int{101}, Thr: 1}}
+		pol := &wPolicy{RootVersion: 1, RootKeys: []int{1}, RootThr: 1, TargetsKeys: []int{2}, TargetsThr: 1, HasTargetsRole: true, RootSigners: []int{1},
+			Files: []*wFile{t}, Hooks: hooks}
+		b, err := buildWorld(&wWorld{Events: []wEvent{{Kind: "policy", Pol: pol, Signer: 1}}})
+		if err != nil {
+			return err
+		}
+		for _, sc := range scripts {
+			if _, err := b.m.WriteBlob([]byte(sc)); err != nil {
+				return err
+			}
+		}
+		_, dir, err := newRealRepo(c, fmt.Sprintf("c20-%d", hi), true)
+		if err != nil {
+			return err
+		}
+		if err := exportObjects(b.m, dir); err != nil {
+			return err
+		}
+		for _, rv := range b.m.listRefs() {
+			if _, err := gitOut(dir, "update-ref", rv[0], rv[1]); err != nil {
+				return err
+			}
+		}
+		repo, err := gittuf.LoadRepository(dir)
+		if err != nil {
+			return err
+		}
+		signerKey := []int{4, 5, 6, 7, 8, 1}[r.Intn(6)] // 8: unknown key; 1: a root key, principal without hooks
+		rsl.VerifResetCache()
+		codes, herr := repo.InvokeHooksForStage(context.Background(), poolKeyN(signerKey), tuf.HookStagePreCommit)
+		os.RemoveAll(filepath.Join(c.outDir, "repos", fmt.Sprintf("c20-%d", hi)))
+		res := 0
+		switch {
+		case herr == nil:
+		case errors.Is(herr, tuf.ErrPrincipalNotFound):
+			res = 1
+		case errors.Is(herr, gittuf.ErrNoHooksFoundForPrincipal):
+			res = 2
+		default:
+			res = 3
+		}
+		ran := []string{}
+		names := []string{}
+		for n := range codes {
+			names = append(names, n)
+		}
+		sort.Strings(names)
+		for _, n := range names {
+			var k int
+			fmt.Sscanf(n, "hook%d", &k)
+			ran = append(ran, fmt.Sprintf("(%d, (%d)%%Z)", k, codes[n]))
+		}
+		principal := map[int]int{4: 101, 5: 102, 6: 103, 7: 104}[signerKey]
+		pterm := "None"
+		if principal != 0 {
+			pterm = fmt.Sprintf("(Some %d)", principal)
+		}
+		if signerKey == 1 {
+			pterm = "(Some 1)"
+		}
+		c.add(fmt.Sprintf("(CHooks %s %s %d %s)", coqList(hterms), pterm, res, coqList(ran)), sideCase{Class: "hooks", Nontrivial: true, Key: keyOf(fmt.Sprint(hh, signerKey)),
+			Human: map[string]interface{}{"hooks": hh, "signer_key": signerKey, "result": fmt.Sprint(herr), "exit_codes": fmt.Sprint(codes)}})
 	}
 	// ---- exit codes ----
 	exits := []struct {
